@@ -10,10 +10,14 @@
 //            hostile tree Messages, SetDataNode with an insert-before name) which the session subclass IdxSession runs when its
 //            client sends one of four harness command codes (the way customised muscle daemons use that protected API), plus
 //            PR_COMMAND_GETDATATREES (the public face of SaveNodeTreeToMessage) and PR_COMMAND_SETDATATREES (must be bounced).
+//            A third of the sessions use only ONE index-creating operation all their life (insert / add-to-index / reorder / clone /
+//            restore / SetDataNode): which server path made a session's indexes decides whether it gets own-node snapshots (F15).
 //            Every session may subscribe (plain, two patterns at once, or BATCH{quiet subscribe, GETDATA}) to its OWN and to foreign
 //            index nodes and unsubscribe again; each keeps per node path a list and applies every PR_RESULT_INDEXUPDATED string
 //            in arrival order (c / i<pos>:<name> / r<pos>:<name>; a remove that does not fit, an insert beyond the end or a
-//            malformed string is a violation by itself).
+//            malformed string is a violation by itself).  A subscription counts from the pong of a PING sent just before it (so the
+//            late reply to an earlier one-shot GETDATA is not mistaken for its snapshot: none is sent for an empty index), an
+//            unsubscription from the pong of a PING sent just behind REMOVEPARAMETERS (there is no unsubscribe notice).
 //            At every quiescent point (after ~1/3 of the operations and at the end):
 //              struct    in-process walk: every index entry is THE child object of that name of that node, no duplicates;
 //              observer  the observer's fresh GETDATA snapshot (one pattern per depth) shows the same node set and, per node, the
@@ -26,7 +30,10 @@
 //            !Rmv change an index silently by design) are compared structurally and through the observer only.
 //   regress  fixed witnesses: F15 (index created only by REORDERDATA, own-node subscription), F32 (generated child names are a
 //            function of the node's history, not of the process's), repeated add-to-index, hostile tree restore + save/restore
-//            round trip, SETDATATREES bounce, the documentation examples of INSERTORDEREDDATA / REORDERDATA, oracle self-tests.
+//            round trip, SETDATATREES bounce, the documentation examples of INSERTORDEREDDATA / REORDERDATA, oracle self-tests,
+//            and the two defects this harness found in CloneDataNodeSubtree (fixed in /repo by "fix: CloneDataNodeSubtree() could
+//            list a child twice in the clone's index, and did not set _indexingPresent"); both keep their own keys (clone|...) and
+//            their classification in mode=index, so that a regression is reported as what it is and the history goes on.
 #include "reflectbench.h"
 #include "regex/StringMatcher.h"
 #include "vh.h"
@@ -40,7 +47,7 @@ enum { STREAM_INDEX = 1301 };
 enum { HC_CLONE = 0x68636c6f, HC_RESTORE = 0x68727374, HC_SAVE = 0x68736176, HC_SETNODE = 0x68736574, HC_RESULT = 0x68726573 };   // 'hclo' 'hrst' 'hsav' 'hset' 'hres'
 enum { HF_ADDTOINDEX = 1, HF_QUIET = 2 };
 
-// two findings of this harness that are not in DESIGN.md section 7 (described where they are detected); each has its own key
+// two findings of this harness, meanwhile repaired in /repo (described where they are detected); each has its own key
 static const char * KEY_CLONE_DUP = "clone|duplicate_index_entry_when_destination_already_indexed";
 static const char * KEY_CLONE_FLAG = "clone|no_snapshot_for_own_index_created_by_clone";
 typedef std::vector<std::string> Names;
@@ -708,7 +715,13 @@ static void RegressStructure()
    MessageRef st = GetMessageFromPool(PR_COMMAND_SETDATATREES); (void)st()->AddMessage("t", TreeOf(kids, kids)); (void)st()->AddMessage("u", TreeOf(kids, kids)); a->c->Send(st); a->settreesSent++; h.log.push_back("SETDATATREES t,u"); Check(h, &t2, true);
    EXPECT(h, a->settreesBounced == 1, "settrees|not_bounced", "no PR_RESULT_ERRORUNIMPLEMENTED for PR_COMMAND_SETDATATREES");
    EXPECT(h, t1.size() == t2.size() && t2[root + "/t"].index == i1, "settrees|changed_the_tree", "PR_COMMAND_SETDATATREES changed the tree");
-   // 5) a subscriber that unsubscribes forgets; nothing more arrives for the node
+   // 5) after the pong behind REMOVEPARAMETERS nothing more arrives for the node (there is no unsubscribe notice: the client forgets by itself)
+   MessageRef rm = GetMessageFromPool(PR_COMMAND_REMOVEPARAMETERS); (void)rm()->AddString(PR_NAME_KEYS, EscapeRegexTokens(String("SUBSCRIBE:*"))); w->c->Send(rm);
+   MessageRef pg = GetMessageFromPool(PR_COMMAND_PING); (void)pg()->AddInt32("xtag", ++h.tag); w->c->Send(pg); w->pendingUnsub[h.tag] = "*"; h.log.push_back("the subscriber unsubscribes"); Check(h);
+   EXPECT(h, w->subs.empty() && w->lists.empty() && w->pendingUnsub.empty(), "regress|unsubscribe", "the subscriber still tracks " + Join(w->subs));
+   a->c->Send(CmdInsert(Names(1, "t"), Names(1, "atEnd"))); bench.Settle();
+   EXPECT(h, w->c->CountWhat(PR_RESULT_INDEXUPDATED) == 0, "regress|index_update_after_unsubscribe", "an index update arrived after the pong behind REMOVEPARAMETERS");
+   Check(h);
    vh::stat("regress_structure");
 }
 static void RegressDocExamples()
